@@ -649,7 +649,8 @@ func (cachefile *cacheFile) setData(streamID uint64, streamTime time.Time, conve
 			return fmt.Errorf("failed to write relative packet time: %w", err)
 		}
 		streamSize += uint64(bytesWritten)
-		lastTime = lastTime.Add(relTime)
+		// follow what the reader reconstructs, so that the truncation to microseconds does not add up
+		lastTime = lastTime.Add(time.Duration(relTime.Microseconds()) * time.Microsecond)
 
 		ct := convertedPacket.ContentType
 		if ct == "" {
